@@ -213,6 +213,16 @@ where
 
         barrier += cones.compute_barrier(z, s, dz, ds, α);
 
+        #[cfg(clarabel_verif)]
+        if crate::verif::step_log() {
+            use crate::verif::f64_of;
+            crate::verif::emit_simple(
+                "Barrier",
+                &[cones.degree() as i64],
+                &[f64_of(α), f64_of(μ), f64_of(cur_τ), f64_of(cur_κ), f64_of(barrier)],
+            );
+        }
+
         barrier
     }
 
